@@ -12,6 +12,7 @@ from ..core import Engine, stream, BuildError, digest
 from ..build import World
 from ..gen import ExprGen, gen_types, values_of, subtype_of
 from ..refsem import RefSem, Ambiguous, UNDEF, state_key
+from ..inject import Callbacks
 
 from unified_planning.plans import ActionInstance
 from .statehist import KNOBS
@@ -319,6 +320,14 @@ class SimRun(Engine):
                 ops.append({"op": "eq", "s": sid, "t": ro.choice(ids)})
             else:
                 ops.append({"op": "read", "s": sid})
+        # faults: a user-supplied interpreted function raises during ONE query (call n of that function inside the
+        # query: in the grounding phase when its arguments are parameters or constants, in the evaluation otherwise);
+        # the query fails, every later query must answer as if it had never been asked
+        rf = stream(seed, "faults")
+        if world.get("ifuns") and rf.random() < 0.5:
+            cands = [o for o in ops if o["op"] in ("is_applicable", "applicable") or (o["op"] == "apply" and "id" not in o)]
+            for o in rf.sample(cands, min(len(cands), rf.choice([1, 2, 3]))):
+                o["fault"] = {"kind": "callback_raise", "fn": world["ifuns"][0]["name"], "nth": rf.choice([1, 1, 1, 2, 3])}
         return {"engine": self.name, "knobs": {"max_ancestors": rk.choice(KNOBS)}, "world": world, "ops": ops}
 
     # ----------------------------------------------------------------- execute
@@ -334,7 +343,8 @@ class SimRun(Engine):
         world = script["world"]
         rs = RefSem(world)
         try:
-            W = World(world)
+            cb = Callbacks()
+            W = World(world, callbacks=cb)
             problem = W.problem()
         except BuildError:
             raise
@@ -442,6 +452,29 @@ class SimRun(Engine):
             ctx.ops += 1
             st = real[op["s"]]
             before = read(st)
+            fault = op.get("fault")
+            if fault and fault.get("kind") == "callback_raise" and k in ("apply", "is_applicable", "applicable"):
+                # the faulted query: whatever it answers is not judged, what it leaves behind is
+                ctx.faults_cfg["callback_raise"] += 1
+                cb.arm(fault["fn"], fault["nth"])
+                try:
+                    if k == "applicable":
+                        call(lambda: list(sim.get_applicable_actions(st)))
+                    elif op["a"] in W.actions and all(o in W.objects for o in op["params"]) and \
+                            len(op["params"]) == len(W.actions[op["a"]].parameters):
+                        act_ = W.actions[op["a"]]
+                        ps_ = params_nodes(op)
+                        call(sim.is_applicable if k == "is_applicable" else sim.apply, st, act_, ps_)
+                finally:
+                    cb.disarm()
+                if cb.fired:
+                    ctx.faults_fired["callback_raise"] += 1
+                    ctx.probe("query-failed-in-user-code")
+                ctx.check("C02.state-unchanged", read(st) == before,
+                          f"op {i}: a query that failed in user code changed state {op['s']}", cls="state-changed-by-failed-query")
+                ctx.ev(i, k, op["s"], "faulted", cb.fired)
+                ctx.outcome(k, "faulted" if cb.fired else "fault-not-reached")
+                continue
             if k in ("apply", "is_applicable"):
                 if op["a"] not in W.actions or any(o not in W.objects for o in op["params"]):
                     continue
